@@ -33,6 +33,10 @@ def run(ctx: Ctx) -> None:
     rep.rule("C16.R7", "as C12.R2(ownership): the in-memory object cache of a store is built by that store and never handed to a store "
                        "over another (relative, re-resolved) internal directory")
     cache_ownership(ctx, "C16.R7")
+    rep.rule("C16.R10", "as C07.R3: the temporary that is renamed into place is built beside its target (internal and data directories may be on different file systems)")
+    S.unique_temporaries(ctx, v, "C16.R10")
+    rep.rule("C16.R11", "every directory of the store is created by the constructor whatever the state of the other ones (fresh internal directory + pre-existing data directory)")
+    S.dirs_created_unconditionally(ctx, v, "C16.R11")
     rep.rule("C16.R8", "presence and path queries are answered from the shared directories at call time, never from state of one store object "
                        "(stores sharing an internal directory see each other's blobs)")
     n8 = S.presence_from_fs(ctx, v, "C16.R8")
